@@ -12,6 +12,7 @@ Definition fn (name : nat) (ps : list ty) (ret : ty) (body : list stmt) (res : e
 
 Definition sq : style := mkStyle true false.   (* qualified literals *)
 Definition sh : style := mkStyle false true.   (* helper literals, type macros *)
+Definition sqm : style := mkStyle true true.   (* qualified literals, type macros *)
 
 Definition corpus : list (string * (style * prog)) :=
   [ (* a qualified literal inside a `while` inside a top-level `if` whose condition holds a
@@ -100,6 +101,34 @@ Definition corpus : list (string * (style * prog)) :=
                          [SAssG 0 (EPrim (PSub NMI) [EGlob 0; mi 1]);
                           SPrint [EIf (ECase 1 (EUni [BStr; BMI] 1 (mi 2))) (EUGet 1 (EUni [BStr; BMI] 1 (mi 2))) (mi 5)]]);
            IStmt (SPrint [EGlob 0])]));
+    (* C back end only: a function with one function expression that captures a parameter and
+       another that captures nothing gets C code that uses an undeclared environment variable
+       ("'e0' undeclared" -> "C compile failed"); -ginterp runs the same program *)
+    ("two-lambdas-one-capturing-c-backend",
+     (sqm, [IFun (mkFun 2 [TMI; TBool; TMI] TBool [] [] (ELit (LBool false)) true 0);
+            IVar TMI (mi 0); IVar TMI (mi 0);
+            IFun (mkFun 5 [TFun [BMI] BBool; TStr; TRec [BInt; BMI]] TMI [(TMI, mi 0)] [] (mi 0) true 2);
+            IConst (TRec [BMI; BBool]) (ERec [BMI; BBool] [mi 0; ELit (LBool false)]);
+            IFun (mkFun 7 [TRec [BMI; BBool]; TBool; TFun [] BInt] (TRec [BMI; BBool])
+                        [(TFun [BMI] BBool, EClo 2 [BMI] BBool [mi 0; ELoc 1]);
+                         (TMI, ECall 5 [EClo 2 [BMI] BBool [mi 0; ELit (LBool false)]; ELit (LStr "");
+                                        ERec [BInt; BMI] [ELit (LNum NInt 0); mi 0]])]
+                        [] (ERec [BMI; BBool] [mi 0; ELit (LBool false)]) false 3);
+            IStmt (SPrint [ELit (LStr "end")])]));
+    (* interpreter only: "Compiler bug ... fintStmt: RElt unimplemented" (abort) for the field of a
+       record returned by a call whose argument is a function expression, at file level after several
+       declarations, when the variable so initialised is never read (the field access is left as
+       a bare statement); the C route runs.  Kept exactly as shrunk (smaller variants run). *)
+    ("relt-unimplemented-in-interpreter",
+     (sqm, [IFun (mkFun 1 [TMI; TMI] TMI [(TMI, mi 0); (TMI, mi 0); (TMI, mi 0)] [] (mi 0) true 0);
+            IVar TMI (mi 0); IVar TMI (mi 0); IVar TBool (ELit (LBool false));
+            IVar (TRec [BStr; BMI]) (ERec [BStr; BMI] [ELit (LStr ""); mi 0]);
+            IVar (TArr BStr) (EArrLit BStr [ELit (LStr "")]);
+            IVar TBool (ELit (LBool true)); IVar TMI (mi 0);
+            IConst (TArr BStr) (EArrLit BStr [ELit (LStr ""); ELit (LStr "")]);
+            IFun (mkFun 8 [TFun [BMI] BMI] (TRec [BMI; BMI; BMI]) [(TMI, mi 0); (TMI, mi 0)] []
+                        (ERec [BMI; BMI; BMI] [mi 0; mi 0; mi 0]) true 8);
+            IVar TMI (EField 2 (ECall 8 [EClo 1 [BMI] BMI [mi 0]]))]));
     (* sanity entries that must agree *)
     ("iterate-in-for",
      (sq, [IVar TMI (mi 0);
@@ -237,6 +266,13 @@ Definition corpus : list (string * (style * prog)) :=
            IStmt (SPrint [EApp (ECall 3 [mi 5]) [mi 1]]);
            IStmt (SAssG 1 (ECall 3 [mi 4]));
            IStmt (SPrint [ECall 2 [EGlob 1; mi 0]])]));
+    ("category-default-constant",
+     (sq, [IStmt (SPrint [EPrim (PSzLimit SzA) []; ELit (LStr " "); EPrim (PSzTwice SzA) []; ELit (LStr " ");
+                          EPrim (PSzLimit SzB) []; ELit (LStr " "); EPrim (PSzTwice SzB) []; ELit (LStr " ");
+                          EPrim (PSzLimit SzC) []; ELit (LStr " "); EPrim (PSzTwice SzC) []]);
+           IFun (mkFun 1 [TMI] TMI [] [] (EPrim (PSub NMI) [EPrim (PAdd NMI) [ELoc 0; EPrim (PSzTwice SzA) []];
+                                                            EPrim (PSzLimit SzC) []]) true 0);
+           IStmt (SPrint [ECall 1 [mi 1]])]));
     ("string-escapes",
      (sq, [IStmt (SPrint [ELit (LStr "a_b""c__d"); EPrim PLen [ELit (LStr "_""")]])]))
   ].
